@@ -348,7 +348,11 @@ func main() {
 	pipeRun := func(kind string, pc pipeCase) {
 		c.Obs.Evaluations++
 		c.Count("pipe:" + kind)
-		o := runPipe(pc)
+		var o pipeObs
+		if !mtx.Watchdog(20*time.Second, func() { o = runPipe(pc) }, nil) {
+			c.Violate("scenario-hang", "the read path did not finish a history of injected frames within 20 s", -1, 0, pc)
+			return
+		}
 		if o.Err != "" {
 			c.Violate("pipe-run-failed", o.Err, -1, 0, pc)
 			return
